@@ -2,6 +2,13 @@
 //! so replay files stay small and replay regenerates identical bytes.
 
 use crate::prng::Rng;
+use std::sync::atomic::{AtomicBool, Ordering};
+
+/// `--small`: keep generated inputs tiny (interpreted engines: Miri)
+pub static SMALL: AtomicBool = AtomicBool::new(false);
+pub fn small() -> bool {
+    SMALL.load(Ordering::Relaxed)
+}
 use serde_json::{json, Value};
 
 #[derive(Clone, Debug, Hash, PartialEq, Eq)]
@@ -157,6 +164,10 @@ pub fn draw_data(r: &mut Rng, len: usize) -> DataDesc {
 
 /// Length distribution that concentrates on the generator's thresholds.
 pub fn draw_small_len(r: &mut Rng) -> usize {
+    if small() {
+        const E: &[usize] = &[0, 1, 3, 4, 5, 9, 10, 11, 49, 50, 51, 127, 128, 129];
+        return if r.chance(1, 2) { *r.pick(E) } else { r.range(0, 260) as usize };
+    }
     const EDGES: &[usize] = &[
         0, 1, 2, 3, 4, 5, 6, 7, 8, 9, 10, 11, 12, 48, 49, 50, 51, 52, 127, 128, 129, 130, 255, 256, 257,
     ];
